@@ -370,6 +370,13 @@ def native_repeat_replay(ename, fname):
 
 def unit_envs(S):
     """every component function of the classic-control environments: vmapped over a symbolic batch == pointwise; closed, effect-free, re-extraction identical."""
+    # results depend only on explicit arguments: nothing in lerax (at import time or later) touches the process-wide JAX configuration (PRNG implementation, x64, ...), on which
+    # the assumption 'vmap of a random draw is the per-lane draw' (A-RNG / A-XLA) rests
+    from contracts import C11
+    offenders, nfiles, _ = C11.python_state_offenders()
+    cfg = [o for o in offenders if "JAX configuration" in o]
+    S.fact("process-wide-jax-configuration-untouched", not cfg and nfiles > 50, function="lerax/** (AST frame check)", detail=cfg[:5],
+           replay=(lambda m: C11.native_config_replay(m)), what="no lerax module changes jax.config (default PRNG implementation, x64, matmul precision, ...) - neither in a function nor at import time")
     (B,) = symbolic_dims("B")
     import diffrax
     for ename in ("CartPole", "MountainCar", "ContinuousMountainCar", "Acrobot", "Pendulum"):
